@@ -14,6 +14,44 @@ open Midi Midi.Gen
 /-- `do let v ← r; .ok v` is `r` -/
 @[simp] theorem bind_ok' {β : Type} (r : Res β) : (r >>= fun v => Except.ok v) = r := by cases r <;> rfl
 
+namespace QF
+open Midi.Gen.ShortMsg
+
+theorem extract_type (s : Nat) : extract_type_from_status_byte s = extractType s := by
+  unfold extract_type_from_status_byte extractType
+  simp only [extract_high_nibble_from_byte, bind, Except.bind]
+  by_cases h : highNibble s = 15
+  · simp [h, highNibble] at *; simp [h]
+  · have h' : ¬ ((s >>> 4) &&& 15) = 15 := by simpa [highNibble] using h
+    simp only [highNibble] at *
+    simp [h']
+    have hb : build_byte_from_nibbles ((s >>> 4) &&& 15) 0 = buildByteFromNibbles ((s >>> 4) &&& 15) 0 := by
+      unfold build_byte_from_nibbles buildByteFromNibbles
+      by_cases h1 : (s >>> 4) &&& 15 ≤ 15 <;> simp [h1]
+    rw [hb]
+
+theorem to_u7 (f : QFrame) : U7.from_ f = .ok f.toU7 := by
+  cases f <;> rfl
+
+theorem of_u7 (d : Nat) : TimeCodeQuarterFrame.from_ d = QFrame.ofU7 d := by
+  unfold TimeCodeQuarterFrame.from_ QFrame.ofU7
+  simp only [extract_high_nibble_from_byte, extract_low_nibble_from_byte, bind, Except.bind, highNibble, lowNibble]
+  generalize (d >>> 4) &&& 15 = h
+  by_cases h0 : h = 0; · subst h0; rfl
+  by_cases h1 : h = 1; · subst h1; rfl
+  by_cases h2 : h = 2; · subst h2; rfl
+  by_cases h3 : h = 3; · subst h3; rfl
+  by_cases h4 : h = 4; · subst h4; rfl
+  by_cases h5 : h = 5; · subst h5; rfl
+  by_cases h6 : h = 6; · subst h6; rfl
+  by_cases h7 : h = 7
+  · subst h7
+    simp only []
+    cases TimeCodeType.ofU8 ((d &&& 6) >>> 1) <;> rfl
+  · simp [h0, h1, h2, h3, h4, h5, h6, h7]
+
+end QF
+
 namespace SM
 open Midi.Gen.ShortMsg
 variable {α β : Type}
@@ -36,7 +74,7 @@ theorem to_structured_default (I : Impl α) (h : I.toStructuredOverride = none) 
 
 theorem type_ (I : Impl α) (x : α) : ShortMessage.type_ I x = msgType I x := by
   unfold ShortMessage.type_ msgType
-  simp only [bind, Except.bind]
+  simp only [bind, Except.bind, QF.extract_type]
   cases extractType (I.status x) with
   | error e => rfl
   | ok o => cases o <;> rfl
@@ -204,6 +242,16 @@ theorem plain (F : Factory β) :
       ShortMessageFactory.system_exclusive_end, ShortMessageFactory.timing_clock, ShortMessageFactory.start,
       ShortMessageFactory.continue_, ShortMessageFactory.stop, ShortMessageFactory.active_sensing,
       ShortMessageFactory.system_reset, mkSystemExclusiveStart, mkPlain, bind_ok']
+
+theorem from_bytes {β : Type} (F : Factory β) (b : Bytes) : ShortMessageFactory.from_bytes F b = fromBytes F b := by
+  unfold ShortMessageFactory.from_bytes fromBytes
+  simp only [bind, Except.bind]
+  cases extractType b.status with
+  | error e => rfl
+  | ok o =>
+    cases o with
+    | none => rfl
+    | some t => rfl
 
 end FD
 end Midi.GenTie
